@@ -18,7 +18,7 @@ MANIFEST = {
  'technique': 'Lean 4 proof (case analysis on exception flow + the C11 invariant) + table extraction + differential correspondence at three levels',
  'design_ref': 'DESIGN.md §6 C07',
 }
-THEOREMS = ['C07.firewall_tables_ok', 'C07.firewall_total', 'C07.plugin_hooks_wrapped', 'C07.all_plugin_hooks_firewalled', 'C07.feedMsg_total',
+THEOREMS = ['C07.firewall_tables_ok', 'C07.firewall_total', 'C07.plugin_hooks_wrapped', 'C07.all_plugin_hooks_firewalled', 'C07.logging_swallows_exceptions', 'C07.feedMsg_total',
             'C07.callbacks_all_run', 'C07.outFilter_exception_keeps_message', 'C07.takeMsg_total',
             'C07.isupport_never_deafens', 'C07.no_escape', 'C07.read_never_raises', 'C07.driver_never_removed', 'C07.later_ping_answered',
             'C07.liveB_pingAnswered']
@@ -599,10 +599,14 @@ class Alarm(BaseException): pass
 def _alarm(sig, frm): raise Alarm()
 
 def guarded_run(rig, st, seconds=3):
-    """one pass of the real drivers.run() under a watchdog: a loop that does not return is a failure, not a wait"""
+    """one pass of the real drivers.run() under a watchdog: a loop that does not return is a failure, not a wait.
+    The limit is on the CPU time of this process (a busy loop burns it; a loaded machine does not), with a generous
+    wall-clock limit behind it (a blocking read is reported by the fake socket itself)."""
     import signal
+    signal.signal(signal.SIGVTALRM, _alarm)
     signal.signal(signal.SIGALRM, _alarm)
-    signal.alarm(seconds)
+    signal.setitimer(signal.ITIMER_VIRTUAL, seconds)
+    signal.alarm(90)
     try:
         rig.drivers.run()
     except Alarm:
@@ -611,6 +615,7 @@ def guarded_run(rig, st, seconds=3):
         # not even drivers.run() held it back: the main loop of the bot would end here
         st.crash = 'out of drivers.run(): ' + type(e).__name__
     finally:
+        signal.setitimer(signal.ITIMER_VIRTUAL, 0)
         signal.alarm(0)
     if st.crash == 'Alarm':
         rig.hangs = getattr(rig, 'hangs', 0) + 1
@@ -679,7 +684,7 @@ def l3_cases(rig, r, n):
         obs, ops = run_l3(rig, r, lines, fault, key, eof)
         ok = True; msg = ''
         if obs['crash'] in ('Hang', 'Alarm'):
-            ok = False; msg = 'the driver loop does not return (%s) after %r' % ('recv() on a blocking socket with nothing to read' if obs['crash'] == 'Hang' else 'drivers.run() — feedMsg of the last line fed — did not return within 3 s', lines)
+            ok = False; msg = 'the driver loop does not return (%s) after %r' % ('recv() on a blocking socket with nothing to read' if obs['crash'] == 'Hang' else 'drivers.run() — feedMsg of the last line fed — used 3 s of CPU without returning', lines)
         elif obs['crash'] or not obs['registered']:
             ok = False; msg = 'driver removed from drivers._drivers (exception %s escaped run()) after %r' % (obs['crash'], lines)
         elif obs['answered'] is False:
